@@ -778,6 +778,9 @@ def _origin_class(t, depth=0):
         if x[0] == "param":
             return "param"
         return "field-of:" + x[0]
+    # a value reduced modulo a divisor (`x % n`, `x.checked_rem(n).unwrap_or(0)`, the same as a match): one class
+    if Q.reduced_index(t) is not None:
+        return "mod"
     if t[0] == "call":
         last = T.short(t[1]).rsplit("::", 1)[-1]
         if last == "unwrap_or" and len(t[2]) == 2:
